@@ -157,3 +157,7 @@ META = {
     'reach_required': ['crashed', 'restarted', 'crash_right_after_a_delete',
                        'crash_after_a_put'],
 }
+
+
+def weight(name, spec):
+    return 10 if '-sym-' in name else 1
